@@ -24,6 +24,7 @@ fn scenarios(id: &str, args: &Args) -> Option<Vec<explore::Scenario>> {
         "C04" => s_acks::c04(args),
         "C05" => s_delivery::c05(args),
         "C11" => s_keys::c11(args),
+        "C12" => s_keys::c12(args),
         "C15" => s_qos::c15(args),
         "C16" => s_match::c16(args),
         "C17" => s_match::c17(args),
